@@ -306,6 +306,26 @@ def _extract_from_filters(
                     ):
                         yield message
 
+        if expression.tail_filters:
+            # The first tail filter is applied to whichever branch was taken. That
+            # is a literal we can see if the branch has no filters of its own.
+            first_filter = expression.tail_filters[0]
+            if first_filter.name in keywords:
+                filter_callable = environment.filters.get(first_filter.name)
+                if isinstance(filter_callable, TranslatableFilter):
+                    branches = []
+                    if not expression.left.filters:
+                        branches.append(expression.left.left)
+                    if expression.alternative and not expression.filters:
+                        branches.append(expression.alternative)
+                    for branch in branches:
+                        if message := filter_callable.message(  # type: ignore
+                            branch,
+                            first_filter,
+                            lineno,
+                        ):
+                            yield message
+
 
 def _strip_comment_tags(comments: list[str], tags: list[str]) -> list[str]:
     """Similar to Babel's messages.extract._strip_comment_tags."""
